@@ -71,10 +71,10 @@ def render(e, rng, lvl=0):
 
 
 def has_mod(e):
-    """the expression uses something model.Eval does not evaluate (f64 %, a scalar function other than LENGTH)"""
+    """the expression uses something model.Eval does not evaluate (a scalar function; f64 % is modelled by lib/F64.fmod)"""
     if e[0] == "fn":
         return True
-    return e[0] == "bin" and (e[1] == "%" or has_mod(e[2]) or has_mod(e[3])) or (e[0] == "neg" and has_mod(e[1]))
+    return e[0] == "bin" and (has_mod(e[2]) or has_mod(e[3])) or (e[0] == "neg" and has_mod(e[1]))
 
 
 def shortest_decimal(x):
@@ -271,7 +271,7 @@ def run(ctx):
                               model={k: mtab.get(k) for k in sorted(table)[:3]}, concrete=False, correspondence="binary select list vs model.Parser.parse + model.Eval.eval_row")
                 continue
         else:
-            st["hist"]["modulo_not_modelled"] += 1
+            st["hist"]["scalar_function_outside_model_eval"] += 1
         st["agreed"] += 1
         st["hist"]["columns_%d" % len(j["texts"])] += 1
         if len(j["texts"]) >= 2:
@@ -317,5 +317,5 @@ def run(ctx):
         evaluations=st["evaluations"], distinct_nontrivial=len(st["distinct"]), traces_validated_against_impl=st["agreed"],
         rule="arithmetic expressions to depth 4 over integer literals, size, hardlinks, length(name), unary minus on literals/columns/calls, operators + - * / % and their word aliases, minimal and redundant brackets in both styles x select lists of 1-5 expressions (deliberately including pairs that differ only in the operator or in the bracket placement) on a tree with sizes 0, 7, 10, 1000, 4097, 2^33+1: every column must equal the binary64 value of its own expression (precedence, left associativity, brackets, unary minus), must be the same when selected alone, and must equal the model pipeline (Lexer -> Parser -> Eval with the regenerated operator table); WHERE on an expression returns exactly the entries whose value satisfies it. non-trivial = a select list of at least two expressions",
         samples=st["samples"], distribution=dict(st["hist"]))
-    return ctx.finish(trusted=["binary64 arithmetic: Python floats (oracle) and Coq primitive floats (model) are IEEE 754 like Rust's f64; f64 `%` (fmod) is compared with the oracle only",
+    return ctx.finish(trusted=["binary64 arithmetic: Python floats (oracle) and Coq primitive floats (model) are IEEE 754 like Rust's f64; f64 `%` is C fmod, computed exactly in the model (lib/F64.fmod) and by math.fmod in the oracle",
                                "Rust's float Display is reproduced by lib/F64.show_f64 (validated against the real code) and by the oracle's positional shortest repr"])
